@@ -35,7 +35,9 @@ def check_c04(ctx, job, gro, top):
                      ignored_present=bool(ignored))
             break
         mem = top.molecules[ti].molecule.nodes[node].get("position")
-        if mem is None or not np.array_equal(np.asarray(mem, dtype=float), np.asarray(xyz, dtype=float)):
+        # .pdb input is in Angstrom: the value read is float(A)/10, one ulp away from float(nm)
+        tol = 1e-9 if job.get("coord_ext") == "pdb" else 0.0
+        if mem is None or np.max(np.abs(np.asarray(mem, dtype=float) - np.asarray(xyz, dtype=float))) > tol:
             ctx.fail("C04", clause, f"atom {a + 1} supplied at {xyz} holds {mem} in the built system",
                      ignored_present=bool(ignored))
             break
